@@ -49,11 +49,17 @@ where
   type Param = f64;
   type Output = f64;
   fn cost(&self, x: &Self::Param) -> Result<Self::Output, argmin::core::Error> {
-    if x > &self.max || x < &self.min {
+    // points outside the bounds (or not a number) cost infinity
+    if !(*x >= self.min && *x <= self.max) {
+      return Ok(std::f64::INFINITY);
+    }
+    let f = &self.func;
+    let cost = f(*x);
+    // an undefined cost is as bad as being out of bounds (the solver can not order NaNs)
+    if cost.is_nan() {
       Ok(std::f64::INFINITY)
     } else {
-      let f = &self.func;
-      Ok(f(*x))
+      Ok(cost)
     }
   }
 }
